@@ -99,6 +99,27 @@ def run_one(sdir, checks=None, verbose=True):
     return res
 
 
+def run_cross(sdir, scale=10):
+    """All 20 quick checks at 1/scale of their budget against one seeded change: {property: violation?}"""
+    import importlib
+
+    meta = json.load(open(os.path.join(sdir, "meta.json")))
+    patch = os.path.join(sdir, meta.get("patch", "patch.diff"))
+    scratch = make_scratch(patch)
+    out = {}
+    try:
+        for i in range(1, 21):
+            pid = "C%02d" % i
+            mod = importlib.import_module("aslsim.checks." + pid.lower())
+            runs = max(200, mod.BUDGET["quick"] // scale)
+            code, text = sh([PY, os.path.join(VERIF_DIR, "run.py"), "check", pid, "--runs", str(runs), "--no-evidence"],
+                            VERIF_DIR, {"VERIF_REPO": scratch}, timeout=3000)
+            out[pid] = any(l.startswith("VIOLATION") for l in text.splitlines())
+    finally:
+        shutil.rmtree(scratch, ignore_errors=True)
+    return meta["id"], out
+
+
 def main(rest):
     checks = None
     ids = []
@@ -107,6 +128,19 @@ def main(rest):
             checks = r.split("=", 1)[1].split(",")
         elif not r.startswith("--"):
             ids.append(r)
+    if "--cross" in rest:
+        path = os.path.join(VERIF_DIR, "seeded", "CROSS.json")
+        cross = json.load(open(path)) if os.path.exists(path) else {}
+        for mpath in sorted(glob.glob(os.path.join(VERIF_DIR, "seeded", "*", "meta.json"))):
+            sid = os.path.basename(os.path.dirname(mpath))
+            if (ids and sid not in ids) or (not ids and sid in cross):
+                continue
+            sid, row = run_cross(os.path.dirname(mpath))
+            cross[sid] = row
+            print("cross %-45s caught by: %s" % (sid, " ".join(p for p, v in sorted(row.items()) if v)))
+            with open(path, "w") as fh:
+                json.dump(cross, fh, indent=1, sort_keys=True)
+        return 0
     dirs = sorted(glob.glob(os.path.join(VERIF_DIR, "seeded", "*", "meta.json")))
     results = []
     bad = 0
